@@ -29,11 +29,7 @@ mod time_format {
         if s.len() != 4 {
             return Err(serde::de::Error::custom("Time must be 4 digits (HHMM)"));
         }
-        let hours: u32 = s[0..2].parse().map_err(serde::de::Error::custom)?;
-        let minutes: u32 = s[2..4].parse().map_err(serde::de::Error::custom)?;
-
-        NaiveTime::from_hms_opt(hours, minutes, 0)
-            .ok_or_else(|| serde::de::Error::custom(format!("Invalid time: {}:{}", hours, minutes)))
+        crate::fields::swift_utils::parse_time_hhmm(&s).map_err(serde::de::Error::custom)
     }
 }
 
